@@ -357,6 +357,9 @@ type vC10SeqCase struct {
 	kinds     map[string]int
 	inlineOn  bool
 	portables int
+	rs        []*udpBatchReader // one reader per server socket
+	pcs       []*net.UDPConn
+	rdOf      map[*udpJob]int // which reader took the slab
 }
 
 func (c *vC10SeqCase) sid(j *udpJob) int {
@@ -417,6 +420,14 @@ func TestVerifC10Seq(t *testing.T) {
 		t.Fatal(err)
 	}
 	defer pc.Close()
+	// a second server socket: a quarter of the cases run the engine on both (one reader each,
+	// one slab pool), a client's flow being (client, server socket)
+	pc2, err := net.ListenUDP("udp4", &net.UDPAddr{IP: net.IPv4(127, 0, 0, 1)})
+	if err != nil {
+		t.Fatal(err)
+	}
+	defer pc2.Close()
+	pc2Port := pc2.LocalAddr().(*net.UDPAddr).AddrPort().Port()
 	const nClients = 3
 	var clients []*net.UDPConn
 	var caddr []netip.AddrPort
@@ -476,10 +487,14 @@ func TestVerifC10Seq(t *testing.T) {
 		batchtx := r.Intn(4) != 0
 		inlineOn := r.Intn(2) == 0
 		h := &vC10SeqHandler{scripts: map[uint16]*vC10Script{}, inline: inlineOn}
-		plan := resourcePlan{udpSockets: 1, udpWorkers: workers, udpQueue: qcap}
-		plan.udpSpareSlabs = int64(capN - (qcap + workers + udpReaderReserve))
-		e := newUDPEngine(h, []*net.UDPConn{pc}, false, workers, qcap, plan)
-		if int(e.slabCap) != capN || e.txConns == nil || e.txConns[pc] == nil {
+		pcs := []*net.UDPConn{pc}
+		if shape != 0 && r.Intn(4) == 0 {
+			pcs = append(pcs, pc2)
+		}
+		plan := resourcePlan{udpSockets: len(pcs), udpWorkers: workers, udpQueue: qcap}
+		plan.udpSpareSlabs = int64(capN - (qcap + workers + len(pcs)*udpReaderReserve))
+		e := newUDPEngine(h, pcs, false, workers, qcap, plan)
+		if int(e.slabCap) != capN || e.txConns == nil || e.txConns[pc] == nil || (len(pcs) == 2 && e.txConns[pc2] == nil) {
 			t.Fatalf("engine set-up: slabCap=%d want %d txConns=%v", e.slabCap, capN, e.txConns)
 		}
 		if !batchtx {
@@ -487,11 +502,14 @@ func TestVerifC10Seq(t *testing.T) {
 		}
 		c := &vC10SeqCase{e: e, pc: pc, clients: clients, caddr: caddr, sids: map[*udpJob]int{}, h: h,
 			bursts: make([]udpTXBurst, workers), blocked: make([]bool, workers), idLo: g.nextID + 1, inlineOn: inlineOn,
-			kinds: map[string]int{}}
+			kinds: map[string]int{}, pcs: pcs, rdOf: map[*udpJob]int{}}
 		for w := range c.bursts {
 			c.bursts[w].slot = w
 		}
-		c.r = newUDPBatchReader(e, 0, pc, e.txConns[pc])
+		for i, p := range pcs {
+			c.rs = append(c.rs, newUDPBatchReader(e, i, p, e.txConns[p]))
+		}
+		c.r = c.rs[0]
 
 		nops := 12 + r.Intn(30)
 		if shape == 0 {
@@ -515,8 +533,9 @@ func TestVerifC10Seq(t *testing.T) {
 			switch {
 			case k < 25: // take
 				var j *udpJob
+				ri := r.Intn(len(c.rs))
 				ok := c.guard(func() {
-					j = e.take(c.r.idx)
+					j = e.take(c.rs[ri].idx)
 					if j != nil {
 						j.transition(udpJobFree, udpJobReading)
 					}
@@ -525,17 +544,27 @@ func TestVerifC10Seq(t *testing.T) {
 					break
 				}
 				if j == nil {
-					c.ops = append(c.ops, "UTake 0 0 false")
+					c.ops = append(c.ops, fmt.Sprintf("UTake %d 0 false", ri))
 					c.kinds["take-shed"]++
 				} else {
 					c.held = append(c.held, j)
-					c.ops = append(c.ops, fmt.Sprintf("UTake 0 %d true", c.sid(j)))
+					c.rdOf[j] = ri
+					c.ops = append(c.ops, fmt.Sprintf("UTake %d %d true", ri, c.sid(j)))
 				}
 			case k < 60: // one receive cycle of the batch reader
 				if len(c.held) == 0 {
 					continue
 				}
-				cnt := 1 + r.Intn(len(c.held))
+				// the cycle of one socket's reader: the slabs that reader armed
+				ri := c.rdOf[c.held[r.Intn(len(c.held))]]
+				rr := c.rs[ri]
+				var mine []*udpJob
+				for _, j := range c.held {
+					if c.rdOf[j] == ri {
+						mine = append(mine, j)
+					}
+				}
+				cnt := 1 + r.Intn(len(mine))
 				if cnt > udpBatchSize {
 					cnt = udpBatchSize
 				}
@@ -543,11 +572,11 @@ func TestVerifC10Seq(t *testing.T) {
 					cnt = 1 + r.Intn(3)
 				}
 				if shape == 0 {
-					cnt = min(len(c.held), udpBatchSize)
+					cnt = min(len(mine), udpBatchSize)
 				}
-				batch := append([]*udpJob(nil), c.held[:cnt]...)
+				batch := append([]*udpJob(nil), mine[:cnt]...)
 				for i, j := range batch {
-					c.r.arm(j, i)
+					rr.arm(j, i)
 				}
 				now := time.Now()
 				for i, j := range batch {
@@ -566,11 +595,11 @@ func TestVerifC10Seq(t *testing.T) {
 					}
 					h.scripts[id] = sc
 					fail := r.Intn(25) == 0
-					hd := &c.r.hdrs[i]
+					hd := &rr.hdrs[i]
 					copy(j.rx[:], pkt)
 					hd.dlen = uint32(len(pkt))
 					sa := vC10Sockaddr4(caddr[cl])
-					copy(c.r.names[i][:], sa)
+					copy(rr.names[i][:], sa)
 					hd.hdr.Namelen = uint32(len(sa))
 					hd.hdr.Flags = 0
 					failKind := ""
@@ -583,20 +612,20 @@ func TestVerifC10Seq(t *testing.T) {
 							hd.hdr.Namelen = 1
 							failKind = "short-sockaddr"
 						default:
-							binary.NativeEndian.PutUint16(c.r.names[i][0:2], unix.AF_UNIX)
+							binary.NativeEndian.PutUint16(rr.names[i][0:2], unix.AF_UNIX)
 							failKind = "bad-family"
 						}
 					}
 					c.dropHeld(j)
 					ok := c.guard(func() {
-						c.r.finishRecv(i, now)
+						rr.finishRecv(i, now)
 						e.overflowG.Wait()
 					})
 					if fail {
-						c.ops = append(c.ops, fmt.Sprintf("URecvFail 0 %d", c.sid(j)))
+						c.ops = append(c.ops, fmt.Sprintf("URecvFail %d %d", ri, c.sid(j)))
 						c.kinds["recv-"+failKind]++
 					} else {
-						c.ops = append(c.ops, fmt.Sprintf("URecv 0 %d true %s %d %s %s", c.sid(j), vC10Bool(inlineOn), cl+1, vC10RLE(pkt), sc.coq()))
+						c.ops = append(c.ops, fmt.Sprintf("URecv %d %d true %s %d %s %s", ri, c.sid(j), vC10Bool(inlineOn), cl+1+1024*ri, vC10RLE(pkt), sc.coq()))
 						if inlineOn {
 							c.kinds["recv-inline"]++
 						} else {
@@ -610,17 +639,18 @@ func TestVerifC10Seq(t *testing.T) {
 				if c.panicked == "" {
 					// end of cycle: the receive batch goes back out as one transmit batch
 					c.guard(func() {
-						if c.r.txBurst.n > 0 {
-							e.flushTX(&c.r.txBurst)
+						if rr.txBurst.n > 0 {
+							e.flushTX(&rr.txBurst)
 						}
 					})
-					c.ops = append(c.ops, fmt.Sprintf("UFlush %d", workers))
+					c.ops = append(c.ops, fmt.Sprintf("UFlush %d", workers+ri))
 				}
 			case k < 66: // a datagram through the portable reader's assignments
 				if len(c.held) == 0 {
 					continue
 				}
 				j := c.held[r.Intn(len(c.held))]
+				ri := c.rdOf[j]
 				cl := r.Intn(nClients)
 				id := g.id()
 				pkt := g.packet(id)
@@ -632,7 +662,7 @@ func TestVerifC10Seq(t *testing.T) {
 					j.rxLen = len(pkt)
 					j.readTime = time.Now()
 					j.setRemote(caddr[cl])
-					j.pc = pc
+					j.pc = c.pcs[ri]
 					j.pktinfoLen = 0
 					j.rawSALen = 0
 					e.enqueue(j)
@@ -640,7 +670,7 @@ func TestVerifC10Seq(t *testing.T) {
 				})
 				c.portables++
 				c.kinds["recv-portable"]++
-				c.ops = append(c.ops, fmt.Sprintf("URecv 0 %d false false %d %s %s", c.sid(j), cl+1, vC10RLE(pkt), sc.coq()))
+				c.ops = append(c.ops, fmt.Sprintf("URecv %d %d false false %d %s %s", ri, c.sid(j), cl+1+1024*ri, vC10RLE(pkt), sc.coq()))
 			case k < 94: // one worker-loop iteration
 				w := r.Intn(workers)
 				c.guard(func() {
@@ -680,10 +710,10 @@ func TestVerifC10Seq(t *testing.T) {
 				inconclusive = true
 				continue
 			}
-			var got []string
+			got := make([][]string, len(pcs))
 			for {
 				_ = cl.SetReadDeadline(time.Now().Add(3 * time.Second))
-				m, _, err := cl.ReadFromUDPAddrPort(rbuf)
+				m, from, err := cl.ReadFromUDPAddrPort(rbuf)
 				if err != nil {
 					inconclusive = true
 					break
@@ -707,10 +737,22 @@ func TestVerifC10Seq(t *testing.T) {
 						continue
 					}
 				}
-				got = append(got, vC10RLE(d))
-				recvDesc[strconv.Itoa(ci+1)] = append(recvDesc[strconv.Itoa(ci+1)], fmt.Sprintf("%d bytes id=%x", m, d[:min(2, m)]))
+				// the flow a reply came back on: this client and the server socket it left from
+				sk := 0
+				if from.Port() == pc2Port {
+					sk = 1
+				}
+				if sk >= len(pcs) {
+					sk = 0
+					c.panicked = "a datagram left from a socket this engine does not serve"
+				}
+				got[sk] = append(got[sk], vC10RLE(d))
+				key := strconv.Itoa(ci + 1 + 1024*sk)
+				recvDesc[key] = append(recvDesc[key], fmt.Sprintf("%d bytes id=%x", m, d[:min(2, m)]))
 			}
-			recvCoq = append(recvCoq, fmt.Sprintf("(%d,[%s])", ci+1, strings.Join(got, ";")))
+			for sk := range pcs {
+				recvCoq = append(recvCoq, fmt.Sprintf("(%d,[%s])", ci+1+1024*sk, strings.Join(got[sk], ";")))
+			}
 		}
 		var final []string
 		for _, j := range c.jobs {
@@ -726,12 +768,15 @@ func TestVerifC10Seq(t *testing.T) {
 		if !batchtx {
 			kind += "-directtx"
 		}
+		if len(pcs) == 2 {
+			kind += "-2sock"
+		}
 		line := map[string]any{
 			"k": kind,
 			"coq": fmt.Sprintf("CaseUdp %d %d %d %s [%s] [%s] [%s] %s", capN, qcap, workers, vC10Bool(batchtx),
 				strings.Join(c.ops, ";"), strings.Join(recvCoq, ";"), strings.Join(final, ";"), vC10Bool(c.panicked != "")),
 			"nontrivial": len(c.jobs) > 0 && len(recvDesc) > 0,
-			"desc":       map[string]any{"slabCap": capN, "queue": qcap, "workers": workers, "batchtx": batchtx, "inline": inlineOn, "ops": len(c.ops), "op_kinds": c.kinds, "received": recvDesc, "slabs": len(c.jobs)},
+			"desc":       map[string]any{"slabCap": capN, "queue": qcap, "workers": workers, "batchtx": batchtx, "inline": inlineOn, "sockets": len(pcs), "ops": len(c.ops), "op_kinds": c.kinds, "received": recvDesc, "slabs": len(c.jobs)},
 		}
 		if c.panicked != "" {
 			line["go_fail"] = "the engine panicked: " + c.panicked
